@@ -47,6 +47,42 @@ def _run_unit(job):
     return out
 
 
+def _tree_key(suite, timeout_ms, src):
+    '''Hash of everything a unit result depends on: the repository sources the suite names, all
+    contract files, the engine, the solver budget.  Results are reused only under an identical key
+    (several property checks of one tree state share most of their units).'''
+    import hashlib
+    h = hashlib.sha256()
+    h.update(('%s|%d' % (suite, timeout_ms)).encode())
+    base = src or os.environ.get('PYVC_REPO_SRC') or '/repo/src'
+    files = []
+    for top in sorted(os.listdir(base)):
+        d = os.path.join(base, top)
+        if os.path.isdir(d):
+            for root, _dirs, names in os.walk(d):
+                if '/test' in root or '__pycache__' in root:
+                    continue
+                for n in names:
+                    if n.endswith('.py'):
+                        files.append(os.path.join(root, n))
+    for d in (os.path.join(ROOT, 'contracts'), os.path.join(ROOT, 'pyvc')):
+        for n in sorted(os.listdir(d)):
+            if n.endswith('.py'):
+                files.append(os.path.join(d, n))
+    for f in sorted(files):
+        h.update(f.encode())
+        with open(f, 'rb') as fh:
+            h.update(hashlib.sha256(fh.read()).digest())
+    return h.hexdigest()[:24]
+
+
+def _cache_path(tree_key, job):
+    import hashlib
+    d = os.path.join(ROOT, '.cache', tree_key)
+    os.makedirs(d, exist_ok=True)
+    return os.path.join(d, hashlib.sha256(('%s#%d' % (job[1], job[2])).encode()).hexdigest()[:24] + '.json')
+
+
 def _child(job, conn):
     try:
         r = _run_unit(job)
@@ -64,7 +100,35 @@ def _dead_unit(job, why, wall=0.0):
             'suite': suite, 'trusted': False}
 
 
-def units_for(suite, props=None, keys=None):
+_ENG = {}
+
+
+def _touched_invariant_tags(spec, fs, src):
+    from pyvc.program import Program
+    from pyvc.engine import Engine
+    from pyvc.call import Frame
+    from pyvc.sym import Unsupported
+    key = id(spec)
+    eng = _ENG.get(key)
+    if eng is None:
+        eng = Engine(Program(src) if src else Program(), spec)
+        _ENG[key] = eng
+    tags = set()
+    try:
+        module, ci, fdef = eng.locate(fs)
+        eng.frame = Frame(fdef.name, module, ci, fdef, fs)
+        _l, wfields, wghosts = eng.write_set(fdef.body, None)
+    except Exception:
+        wfields, wghosts = {'*'}, set()
+    wnames = set(wfields) | {'ghost.' + g for g in wghosts}
+    for lst in spec.invariants.values():
+        for c in lst:
+            if '*' in wfields or (eng.clause_reads(c.node) & wnames):
+                tags |= set(c.props)
+    return tags
+
+
+def units_for(suite, props=None, keys=None, src=None):
     spec = load_spec(suite)
     jobs = []
     trusted = []
@@ -80,12 +144,10 @@ def units_for(suite, props=None, keys=None):
             for rs in fs.raises.values():
                 for c in rs.ensures:
                     tags |= set(c.props)
-            if fs.handler:
-                # every handler carries the class invariant, whose clauses are tagged too
-                sch = fs.inv_schema
-                for lst in spec.invariants.values():
-                    for c in lst:
-                        tags |= set(c.props)
+            if fs.handler and not (tags & set(props)):
+                # a handler must preserve the class invariant; the clauses tagged with the property
+                # matter for it only if the handler writes something they read
+                tags |= _touched_invariant_tags(spec, fs, src)
             if not (tags & set(props)):
                 continue
         if not fs.verify:
@@ -102,7 +164,7 @@ def run(suites, props=None, keys=None, timeout_ms=10000, procs=None, src=None, q
     trusted = []
     specs = {}
     for s in suites:
-        spec, jobs, tr = units_for(s, props, keys)
+        spec, jobs, tr = units_for(s, props, keys, src)
         specs[s] = spec
         all_jobs.extend(jobs)
         trusted.extend(tr)
@@ -123,7 +185,25 @@ def run(suites, props=None, keys=None, timeout_ms=10000, procs=None, src=None, q
     # own process management: a unit whose solver spins past every timeout is killed and
     # reported as undecided (never as a verdict)
     ctx = mp.get_context('fork')
-    pending = list(jobs)
+    use_cache = os.environ.get('PYVC_NO_CACHE') != '1'
+    keys_by_suite = {}
+    pending = []
+    for job in jobs:
+        if use_cache:
+            tk = keys_by_suite.get(job[0])
+            if tk is None:
+                tk = keys_by_suite[job[0]] = _tree_key(job[0], timeout_ms, src)
+            cp = _cache_path(tk, job)
+            if os.path.exists(cp):
+                try:
+                    with open(cp) as f:
+                        r = json.load(f)
+                    r['from_cache'] = tk
+                    report(r)
+                    continue
+                except Exception:
+                    pass
+        pending.append(job)
     running = []   # (proc, conn, job, t_start)
     while pending or running:
         while pending and len(running) < procs:
@@ -141,6 +221,12 @@ def run(suites, props=None, keys=None, timeout_ms=10000, procs=None, src=None, q
                 except EOFError:
                     r = _dead_unit(job, 'worker died')
                 p.join(5)
+                if use_cache and not r.get('timeout') and not r.get('error'):
+                    try:
+                        with open(_cache_path(keys_by_suite[job[0]], job), 'w') as f:
+                            json.dump(r, f, default=str)
+                    except Exception:
+                        pass
                 report(r)
             elif not p.is_alive():
                 report(_dead_unit(job, 'worker exited without a result'))
